@@ -22,6 +22,7 @@ theorem commitStep_eq (st : State) :
       { head := (checkpoint st none).index, index := (checkpoint st none).index,
         work := (checkpoint st none).work, entries := [],
         initial := splitPending (checkpoint st none).index (checkpoint st none).work (wlAuthor (checkpoint st none)),
+        initSnap := (checkpoint st none).work,
         notes := splitNote (checkpoint st none).head (checkpoint st none).index (wlAuthor (checkpoint st none)) ::
           (checkpoint st none).notes,
         log := ((checkpoint st none).index, (checkpoint st none).head) :: (checkpoint st none).log } := by
@@ -92,7 +93,9 @@ theorem RInv.amendCore {root sp} (h : RInv root sp) (hok : AmendOK sp) :
     simp only
     refine ⟨⟨h.inv2.nodup, h.inv2.workSeen, hok.seen, by intro e he; simp at he, ?_⟩, ?_, ?_, h.rootHuman,
       h.rootSeen, h.rootNodup, ?_⟩
-    · -- pending = pendingOf the new state
+    · -- pending = pendingOf the new state, recorded with the working tree
+      show PendingOK _
+      refine @PendingOK.of_work ⟨_, sp.g, sp.seen⟩ ?_ rfl h.inv2.nodup h.inv2.workSeen
       show splitPending sp.st.index sp.st.work (mergedAuthor sp.st) = pendingOf _
       rw [splitPending_eq_claims]
       unfold pendingOf
